@@ -315,7 +315,7 @@ func c19Empty(c *fw.Ctx, i int) {
 	r := c.R
 	n := 1 + i%4
 	rid := (i / 4) % n
-	lv := rtp.VLA{RTPStreamID: rid, RTPStreamCount: n, }
+	lv := rtp.VLA{RTPStreamID: rid, RTPStreamCount: n}
 	var b []byte
 	var err error
 	if pv, st := fw.Guard(func() { b, err = lv.Marshal() }); pv != nil {
